@@ -289,6 +289,8 @@ def generate(tier):
     for sh in S.struct_shapes(3, with_empty=True) + S.enum_shapes(2, 2) + S.enum_shapes(3, 1, vmin=3):
         add(build_twin(sh))
     from .common import zoo_cases
+    from .common import unsized_cases
+    cases += unsized_cases('C06')
     for c in zoo_cases('C06', 'Debug', 'Clone', 'Debug, Clone',
                        '    for (i, (a, ta)) in vs.iter().enumerate() {\n'
                        '        r.ck(format!("{:?}", a) == format!("{:?}", ta), 0, &|| format!("value #{}: {:?} differs from #[derive(Debug)] {:?}", i, format!("{:?}", a), format!("{:?}", ta)));\n'
